@@ -407,14 +407,7 @@ pub fn vp_slice_eq(a: &[u8], b: &[u8]) -> (r: bool)
     ensures r == (a@ =~= b@)
 { a == b }
 
-// R-for support: the language-defined desugaring of `for` calls IntoIterator::into_iter; the callers
-// of emit_iter pass slices / arrays / slice iterators.  ASSUMED caller contract: the iterator obeys
-// the iterator laws and is finite.
-pub uninterp spec fn vp_items<T>(t: T) -> nat;   // how many items IntoIterator::into_iter(t) will yield
-#[verifier::external_body]
-pub fn vp_into_iter<T: IntoIterator>(t: T) -> (r: T::IntoIter)
-    ensures r.obeys_prophetic_iter_laws(), r.decrease() is Some, r.remaining().len() == vp_items(t) < usize::MAX
-{ t.into_iter() }
+//%include forloop.rs
 
 // R-shim for Vec::retain(|&(start, _)| start < offset): keeps, in order, exactly the entries below offset
 #[verifier::external_body]
